@@ -14,7 +14,7 @@ from vp.deep import deep, diff
 MODULE = "BlackIt.Properties.C08"
 PROP_FILE = LEAN / "BlackIt/Properties/C08.lean"
 SIG_NAN = "C08/msm/inverse-variance/nan-at-zero-spread"
-FILTERS = {0: None, 1: lambda x: -x, 2: lambda x: x * 2.0, 3: lambda x: x[::-1]}
+FILTERS = {0: None, 1: lambda x: -x, 2: lambda x: x * 2.0, 3: lambda x: x[::-1], 4: lambda x: x * 0.5}
 
 
 def make_stub(kind, weights, filters):
@@ -111,13 +111,18 @@ def run(chk: Check):
             else:
                 weights = np.array([float(rng.choice([1, 2, 3, 0, -1])) for _ in range(len(weights))])
         chk.count("weights_form:" + wform)
-        ftags = None if nf is None else [rng.choice([0, 0, 1, 2, 3]) for _ in range(nf)]
+        ftags = None if nf is None else [rng.choice([0, 0, 1, 2, 3, 4]) for _ in range(nf)]
         filters = None if ftags is None else [FILTERS[g] for g in ftags]
         w_in = weights
         if weights is not None and wform != "float64":
             w_in = {"int_array": lambda w: w.astype(np.int64), "int_list": lambda w: [int(x) for x in w], "int_tuple": lambda w: tuple(int(x) for x in w),
                     "float32": lambda w: w.astype(np.float32)}[wform](weights)
         loss = make_stub(kind, w_in, filters)
+        sim_f = sim
+        if rng.random() < 0.25:
+            # head counts: the simulated (and real) data are whole numbers held in an integer array; a filter may still return floats
+            sim, real = sim.astype(np.int64), real.astype(np.int64)
+            chk.count("data_dtype:int64")
         s0, r0 = sim.tobytes(), real.tobytes()
         try:
             v = loss.compute_loss(sim, real)
@@ -201,6 +206,17 @@ def run(chk: Check):
                 v1b = float(loss.compute_loss(sim, real))
                 if f2h(v1) != f2h(v1b) and not (v1 != v1 and v1b != v1b):
                     chk.fail(f"{name}: the value depends on earlier evaluations on the same object: {v1!r} then {v1b!r}", case)
+                if weights is None and name != "likelihood":
+                    # the same object on data of ANOTHER shape (other length, other number of coordinates), then again on the first data
+                    e3, n3, d3 = rng.randint(1, 3), rng.choice([16, 20, 32]), rng.randint(1, 3)
+                    sim3, real3 = gen_series(rng, e3, n3, d3)
+                    if "alias_filters" not in name:
+                        v3 = float(loss.compute_loss(sim3, real3)); f3 = float(mk(_d=d3).compute_loss(sim3, real3))
+                        if f2h(v3) != f2h(f3):
+                            chk.fail(f"{name}: a used object gives {v3!r} on data of another shape ({e3},{n3},{d3}), a fresh one {f3!r}", case)
+                        v1c = float(loss.compute_loss(sim, real))
+                        if f2h(v1c) != f2h(v1):
+                            chk.fail(f"{name}: the value depends on earlier evaluations on the same object (data of another shape in between): {v1!r} then {v1c!r}", case)
                 fresh = float(mk(coordinate_weights=weights).compute_loss(sim, real))
                 if f2h(fresh) != f2h(v1) and not (fresh != fresh and v1 != v1):
                     chk.fail(f"{name}: a used object gives {v1!r}, a fresh one {fresh!r}", case)
